@@ -282,16 +282,16 @@ def cases(draw, max_events=40):
             if a == "origin_time" and draw(st.integers(0, 3)) == 0:
                 v = v + draw(st.sampled_from([0.5, -0.5, 0.25]))      # thresholds between two milliseconds are legitimate numbers
         stmts.append([a, draw(st.sampled_from(list(OPS))), v])
-    plan = draw(st.sampled_from(["list", "list", "tuple", "single_str", "chained", "repeated", "permuted", "load_catalog", "stale_then_empty", "notinplace_then_inplace", "ctor_filters_then_filter"]))
+    plan = draw(st.sampled_from(["list", "list", "tuple", "single_str", "chained", "repeated", "permuted", "load_catalog", "load_catalog", "load_catalog", "stale_then_empty", "notinplace_then_inplace", "ctor_filters_then_filter"]))
     case = {"k": "filter", "events": ev, "stmts": stmts, "plan": plan, "in_place": draw(st.booleans())}
     if draw(st.integers(0, 3)) == 0:
         case["positional"] = True
     if plan in ("chained", "permuted", "stale_then_empty", "ctor_filters_then_filter"):
         case["order"] = list(draw(st.permutations(list(range(ns)))))
-    if plan == "load_catalog" and draw(st.booleans()):
+    if plan == "load_catalog" and draw(st.integers(0, 2)) > 0:
         # with a region: place the events relative to a generated lattice
         case["plan"] = "load_catalog_region"
-        case["via_json"] = draw(st.booleans())
+        case["via_json"] = draw(st.integers(0, 2)) > 0
         rc = draw(lattice.lattices(max_n=4, flags=False))
         rc["dh_mode"] = "decimal"
         case["region"] = rc
